@@ -8,7 +8,11 @@ be exactly "the two content maps are equal", where the content map (point ->
 non-default leaf value) is computed from the generating spec alone.  An explicit
 reflexivity / symmetry / transitivity pass runs over all triples of a 1-D
 universe, and `isEmpty`, `countValues`, `nonEmpty`, `copy.deepcopy` are checked
-on every tree.  Operands (and their tensors' rank lists) must be left unchanged."""
+on every tree.  Operands (and their tensors' rank lists) must be left unchanged.
+A copies family applies every deep-copy form (copy.deepcopy, Fiber.copy with and
+without preserve_owner, Tensor deepcopy, re-rooting a live root or live sub-tree
+in a new tensor) to every tree, unowned and owned, also in tensors whose leaf
+default differs from the default their fibers were constructed with."""
 import copy
 import itertools
 
@@ -27,7 +31,9 @@ RULE = ("pairs: every ordered pair of the stated universe (nested loops over the
         "tree of the depth-3 universe against every tree one edit away (one leaf cell changed, one sub-fiber slot "
         "toggled between absent and empty); triples: every ordered triple, non-trivial when both premises of "
         "transitivity hold on non-identical specs; single: every tree, non-trivial when it stores an explicit "
-        "default or an empty sub-fiber.  All cases are distinct by construction.")
+        "default or an empty sub-fiber; copies: every tree x ownership variant, inside each case every copy form x "
+        "every live fiber of the tree as the thing copied (fresh original per copy), non-trivial like single.  "
+        "All cases are distinct by construction.")
 ASSUMPTIONS = [
     "coordinates 0..N-1 per rank, integer leaf values, uniform leaf depth 1..3, ordered/unique fibers",
     "both operands of a comparison have the same depth and the same leaf default (0, or 7 with stored values {0,1}); "
@@ -37,14 +43,24 @@ ASSUMPTIONS = [
     "nonEmpty is only required to return a tree with equal content and no stored default / empty sub-fiber; "
     "whether it shares payload boxes with its operand is not part of this property",
     "!= is read as the negation of == (Fiber defines only __eq__)",
+    "copies: 'a deep copy' is read as every library route that documents a deep copy of a tree: copy.deepcopy of a fiber "
+    "or tensor, Fiber.copy() / copy(preserve_owner=True/False), and handing a live (owned) root or sub-fiber to "
+    "Tensor.fromFiber / setRoot of another tensor (setRoot documents that an owned fiber is copied); the new tensor is "
+    "given the same leaf default as the original (equal defaults are the pair families' precondition too); handing an "
+    "UNOWNED fiber to fromFiber adopts it (no copy) and is not driven; the copy is only required to be another object, "
+    "equal to the original, with equal content / count / emptiness / pruned copy - whether a copy made with "
+    "preserve_owner=False is really owner-less, and whether copies share payload boxes, is not part of this property",
+    "copies: all ranks have the default format 'C'; every sub-fiber object occurs once in its tree (a tree, not a DAG)",
 ]
 
 
 # ---------------------------------------------------------------------------
 # specs -> objects / reference content
 
-def mk(spec, depth, dflt=0):
-    """Unowned tree from a spec (fresh objects on every call)."""
+def mk(spec, depth, dflt=0, bdflt=None):
+    """Unowned tree from a spec (fresh objects on every call).  'd' stores the
+    value `dflt`; the leaf fibers are constructed with default `bdflt` (= dflt
+    unless the copies family asks for a tensor whose leaf default differs)."""
     cs, ps = [], []
     if depth == 1:
         for i, x in enumerate(spec):
@@ -52,12 +68,12 @@ def mk(spec, depth, dflt=0):
                 continue
             cs.append(i)
             ps.append(dflt if x == 'd' else int(x))
-        return Fiber(cs, ps, default=dflt)
+        return Fiber(cs, ps, default=dflt if bdflt is None else bdflt)
     for i, x in enumerate(spec):
         if x is None:
             continue
         cs.append(i)
-        ps.append(mk(x, depth - 1, dflt))
+        ps.append(mk(x, depth - 1, dflt, bdflt))
     return Fiber(cs, ps)
 
 
@@ -660,14 +676,237 @@ def shard_edited(acc, shard, nshards, params):
     drive(acc, "edited", case_edited, gen(), shard, nshards, family="edited-after-construction[T2(2,2,%s),default=%d]" % (alpha, dflt))
 
 
+# ---------------------------------------------------------------------------
+# copies: every way of deep-copying a tree / a live part of a tree / a tensor
+
+FIBER_COPIES = ("deepcopy", "copy()", "copy(preserve_owner=True)", "copy(preserve_owner=False)")
+TENSOR_COPIES = ("Tensor-deepcopy", "fromFiber(live-root)", "fromFiber(live-root,shape+1)", "setRoot(live-root)")
+
+
+def _sub_content(C, path):
+    n = len(path)
+    return {pt[n:]: v for pt, v in C.items() if pt[:n] == path}
+
+
+def _state(root, owner):
+    """Everything that decides what the original holds: raw tree, per-fiber
+    owner identity and effective default, tensor attributes and rank lists."""
+    per = []
+    for path, f in _all_fibers(root):
+        try:
+            d = f.getDefault()
+            d = "Fiber" if isinstance(d, Fiber) or d is Fiber else (d.value if isinstance(d, Payload) else d)
+        except Exception as ex:       # reported through the snapshot difference
+            d = "exception:" + type(ex).__name__
+        per.append((path, id(f), id(f.getOwner()) if f.getOwner() is not None else None, repr(d)))
+    return _snap(root, owner) + (tuple(per), mirror(owner) if owner is not None else None)
+
+
+def case_copies(case):
+    """A deep copy equals its original.  For the tree of the spec (unowned, or
+    root of a tensor whose leaf default is `dflt` while the leaf fibers were
+    constructed with `bdflt`) every copy form is applied to a freshly built
+    original: to the root and to every live sub-fiber (copy.deepcopy, copy(),
+    copy(preserve_owner=True/False), Tensor.fromFiber of the live part) and to
+    the tensor (deepcopy, fromFiber / setRoot of its live root).  Each copy is
+    a different object, == the original in both directions and == an
+    independent unowned build of the same spec, holds exactly the spec's
+    content (raw walk, countValues, isEmpty, nonEmpty; also per sub-fiber), and
+    the original is unchanged afterwards."""
+    depth, spec, variant, dflt, bdflt = case
+    C = ref_content(spec, depth, dflt)
+    base = spec_feats(spec, depth)
+    base.add("owned" if variant != "u" else "unowned")
+    base.add("depth=%d" % depth)
+    if dflt != 0:
+        base.add("default=%d" % dflt)
+    if bdflt != dflt:
+        base.add("rank_default_differs_from_fiber_default")
+    cur = core.CUR
+    if base & {"explicit_default", "empty_subfiber", "default_only_subfiber", "default_only"}:
+        cur.nt("copies")
+    out = []
+    ids = RANK_IDS[:depth]
+    shape = dims(spec, depth)
+
+    def fresh():
+        root = mk(spec, depth, dflt, bdflt)
+        if variant == "u":
+            return root, None
+        t = Tensor.fromFiber(ids, root, shape=list(shape), default=dflt)
+        return t.getRoot(), t
+
+    def observe(fam, feats, c, x, Cx, dx, path):
+        """c: copied fiber, x: the live original part, Cx/dx: its expected content / depth."""
+        res = []
+        if not isinstance(c, Fiber):
+            return [(fam, "not-a-fiber", feats, "Fiber", type(c).__name__)]
+        if c is x:
+            return [(fam, "same-object", feats, None, None)]
+        twin = sub_of(mk(spec, depth, dflt), path)
+        for name, a, b in (("copy==original", c, x), ("original==copy", x, c),
+                           ("copy==independent-build", c, twin), ("independent-build==copy", twin, c)):
+            r = a == b
+            if r is not True:
+                res.append((fam, name, feats, True, repr(r)))
+        got = raw_content(c, dflt)
+        if got != Cx:
+            res.append((fam, "content", feats, Cx, got))
+        for who, o in (("copy", c), ("original", x)):
+            n = o.countValues()
+            if type(n) is not int or n != len(Cx):
+                res.append((fam, who + "-countValues", feats, len(Cx), repr(n)))
+            e = o.isEmpty()
+            if e is not (not Cx):
+                res.append((fam, who + "-isEmpty", feats, not Cx, repr(e)))
+        e = Payload.isEmpty(c)
+        if e is not (not Cx):
+            res.append((fam, "copy-Payload.isEmpty", feats, not Cx, repr(e)))
+        ne = c.nonEmpty()
+        if not isinstance(ne, Fiber):
+            res.append((fam, "copy-nonEmpty-not-a-fiber", feats, "Fiber", type(ne).__name__))
+        else:
+            gne = raw_content(ne, dflt)
+            why = canonical(ne, dflt, dx)
+            if gne != Cx:
+                res.append((fam, "copy-nonEmpty-content", feats, Cx, gne))
+            elif why:
+                res.append((fam, "copy-nonEmpty-not-pruned", feats, None, [why, rawtree(ne)]))
+            if ne.countValues() != len(Cx):
+                res.append((fam, "copy-nonEmpty-countValues", feats, len(Cx), ne.countValues()))
+            for name, a, b in (("pruned-copy==original", ne, x), ("original==pruned-copy", x, ne)):
+                r = a == b
+                if r is not True:
+                    res.append((fam, name, feats, True, repr(r)))
+        # the same, part by part (only when the stored structure was copied faithfully)
+        if rawtree(c) == rawtree(x):
+            for p, sc in _all_fibers(c)[1:]:
+                sx = sub_of(x, p)
+                Cp = _sub_content(Cx, p)
+                bad = None
+                if (sc == sx) is not True or (sx == sc) is not True:
+                    bad = ("sub-fiber==", True, False)
+                elif sc.countValues() != len(Cp):
+                    bad = ("sub-fiber-countValues", len(Cp), sc.countValues())
+                elif sc.isEmpty() is not (not Cp):
+                    bad = ("sub-fiber-isEmpty", not Cp, sc.isEmpty())
+                if bad:
+                    res.append((fam, bad[0], feats | {"sub_depth=%d" % (dx - len(p))}, bad[1], [list(p), bad[2]]))
+                    break
+        else:
+            res.append((fam, "stored-structure", feats, rawtree(x), rawtree(c)))
+        return res
+
+    def unchanged(fam, feats, s0, root, owner):
+        s1 = _state(root, owner)
+        if s1 == s0:
+            return
+        if s1[0] != s0[0]:
+            out.append((fam, "original-modified", feats | {"modified:tree"}, s0[0], s1[0]))
+        elif owner is not None and s1[1] != s0[1]:
+            out.append((fam, "original-modified", feats | {"modified:tensor-attrs"}, s0[1], s1[1]))
+        elif owner is not None and (s1[2] != s0[2] or s1[-1] != s0[-1]):
+            out.append((fam, "original-modified", feats | {"modified:rank-lists"}, [s0[2], s0[-1]], [s1[2], s1[-1]]))
+        else:
+            diff = [(a, b) for a, b in zip(s0[-2], s1[-2]) if a != b]
+            out.append((fam, "original-modified", feats | {"modified:owner-or-default"}, None,
+                        [(a[0], a[2:], b[2:]) for a, b in diff][:3]))
+
+    # --- copies of the root and of every live sub-fiber
+    npaths = len(_all_fibers(mk(spec, depth, dflt)))
+    for how in FIBER_COPIES + ("fromFiber(live-part)",):
+        if how == "fromFiber(live-part)" and variant == "u":
+            continue        # an unowned fiber is adopted, not copied
+        for k in range(npaths):
+            if k and how == "copy(preserve_owner=True)":
+                break       # the explicit spelling of copy()'s default: root targets only
+            root, owner = fresh()
+            path, x = _all_fibers(root)[k]
+            dx = depth - len(path)
+            Cx = _sub_content(C, path)
+            feats = base | {"copy:" + how, "target:" + ("root" if not path else "sub-fiber")}
+            fam = "copies:" + how
+            s0 = _state(root, owner)
+            try:
+                if how == "deepcopy":
+                    c = copy.deepcopy(x)
+                elif how == "copy()":
+                    c = x.copy()
+                elif how == "copy(preserve_owner=True)":
+                    c = x.copy(preserve_owner=True)
+                elif how == "copy(preserve_owner=False)":
+                    c = x.copy(preserve_owner=False)
+                else:
+                    tc = Tensor.fromFiber(ids[len(path):], x, default=dflt)
+                    c = tc.getRoot()
+                out.extend(observe(fam, feats, c, x, Cx, dx, path))
+            except Exception as ex:
+                _exc(out, fam, feats, ex)
+            unchanged(fam, feats, s0, root, owner)
+            cur.path("copies:%s:%s" % (how, "root" if not path else "sub"))
+
+    # --- copies of the tensor
+    if variant != "u":
+        for how in TENSOR_COPIES:
+            root, t = fresh()
+            feats = base | {"copy:" + how, "target:tensor"}
+            fam = "copies:" + how
+            s0 = _state(root, t)
+            try:
+                if how == "Tensor-deepcopy":
+                    tc = copy.deepcopy(t)
+                elif how == "fromFiber(live-root)":
+                    tc = Tensor.fromFiber(ids, t.getRoot(), default=dflt)
+                elif how == "fromFiber(live-root,shape+1)":
+                    tc = Tensor.fromFiber(ids, t.getRoot(), shape=[n + 1 for n in shape], default=dflt)
+                else:
+                    tc = Tensor(rank_ids=ids, default=dflt)
+                    tc.setRoot(t.getRoot())
+                if not isinstance(tc, Tensor) or tc is t:
+                    out.append((fam, "not-a-new-tensor", feats, None, type(tc).__name__))
+                else:
+                    for name, a, b in (("copy==original", tc, t), ("original==copy", t, tc)):
+                        r = a == b
+                        if r is not True:
+                            out.append((fam, "tensor-" + name, feats, True, repr(r)))
+                    for who, o in (("copy", tc), ("original", t)):
+                        n = o.countValues()
+                        if type(n) is not int or n != len(C):
+                            out.append((fam, who + "-Tensor.countValues", feats, len(C), repr(n)))
+                    out.extend(observe(fam, feats, tc.getRoot(), t.getRoot(), C, depth, ()))
+            except Exception as ex:
+                _exc(out, fam, feats, ex)
+            unchanged(fam, feats, s0, root, t)
+            cur.path("copies:%s" % how)
+    cur.outcome(("copies", len(C), len(out)))
+    return out
+
+
+def sub_of(f, path):
+    for c in path:
+        f = f.payloads[f.coords.index(c)]
+    return f
+
+
+def shard_copies(acc, shard, nshards, params):
+    dimsp, alpha, variants, dflt, bdflt, deadline = params
+    u, depth = universe(dimsp, alpha)
+    cases = ((depth, s, v, dflt, bdflt) for v in variants for s in u)
+    drive(acc, "copies", case_copies, cases, shard, nshards,
+          family="copies_%s[%s,default=%d,fibers built with default %d]" % (uname(dimsp, alpha), "/".join(variants), dflt, bdflt),
+          deadline=deadline)
+
+
 CASES = {"pair": case_pair, "triple": case_triple, "single": case_single, "payload_empty": case_payload_empty,
-         "edited": case_edited, "owner_default": case_owner_default, "observe_mutate": case_observe_mutate}
+         "edited": case_edited, "owner_default": case_owner_default, "observe_mutate": case_observe_mutate,
+         "copies": case_copies}
 
 A12 = "-d12"     # absent / explicit default / 1 / 2
 A1 = "-d1"
 A7 = "-d01"      # with leaf default 7: 0 and 1 are both values
 A70 = "-d0"      # with leaf default 7: the only value is a stored 0
-U, UT, ALLV = ("u",), ("u", "t"), ("u", "t", "ut")
+A07 = "-d71"     # tensor default 0 over leaf fibers constructed with default 7: a stored 7 is a value
+U, T, UT, ALLV = ("u",), ("t",), ("u", "t"), ("u", "t", "ut")
 
 
 def run(ctx):
@@ -683,6 +922,14 @@ def run(ctx):
                            ((5,), A12, U, 0, 0, 60), ((2, 3), A1, U, 0, 0, 60), ((3, 2), A1, U, 0, 0, 90)]
     neigh = (2, 2, 2, A1, U if q else UT)
     trip = (3, A1 if q else A12)
+    # (dims, alphabet, variants, tensor's leaf default, default the leaf fibers are constructed with, time cap)
+    copies = [((3,), A12, UT, 0, 0, None), ((3,), A7, UT, 7, 7, None),
+              ((2, 2), A12, UT, 0, 0, None), ((2, 2), A7, UT, 7, 7, None),
+              ((2, 2), A7, T, 7, 0, None), ((2, 2), A07, T, 0, 7, None),
+              ((2, 2, 1), A1, UT, 0, 0, None), ((2, 2, 1), A70, T, 7, 7, None), ((2, 2, 1), A70, T, 7, 0, None)]
+    if not q:
+        copies += [((4,), A12, UT, 0, 0, None), ((2, 3), A1, UT, 0, 0, 60), ((3, 2), A1, UT, 0, 0, 90),
+                   ((2, 2, 1), A12, UT, 0, 0, 60), ((2, 2, 2), A1, T, 0, 0, 60), ((2, 2, 2), A70, T, 7, 0, 45)]
     ctx.bounds = {
         "cell alphabet": "'-' absent, 'd' explicitly stored default, digits literal values; a sub-fiber slot is absent "
                          "or holds any member of the next level's universe (so empty and default-only sub-fibers occur)",
@@ -696,6 +943,15 @@ def run(ctx):
         "triples": "all ordered triples of F1(3;%s): reflexive, symmetric, transitive on the library's own verdicts" % trip[1],
         "single": ["every tree of %s variants=%s default=%d: isEmpty, Payload.isEmpty, countValues, nonEmpty, deepcopy, x == x"
                    % (uname(d, a), "/".join(v), df) for d, a, v, df in singles],
+        "copies": ["every tree of %s variants=%s leaf default=%d (leaf fibers constructed with default %d)%s: each of "
+                   "copy.deepcopy / copy() / copy(preserve_owner=False) applied to the root and to every live sub-fiber of a "
+                   "freshly built original (copy(preserve_owner=True): root only), Tensor.fromFiber of every live part of a tensor, "
+                   "Tensor deepcopy, Tensor.fromFiber(ids, live root) with and without a larger shape, setRoot(live root) "
+                   "on a new tensor; each copy is another object, == original and == an independent unowned build (both "
+                   "orders), same raw content / countValues / isEmpty / Payload.isEmpty / nonEmpty (pruned, equal) also "
+                   "per sub-fiber; original (tree, owners, defaults, tensor attributes, rank lists) unchanged"
+                   % (uname(d, a), "/".join(v), df, bdf, " (time cap %ds)" % cap if cap else "")
+                   for d, a, v, df, bdf, cap in copies],
         "Payload.isEmpty": "values and defaults from {-1,0,1,2,7,0.0,0.5}, plain and boxed, with and without default=",
     }
     only = getattr(ctx, "only", None)
@@ -709,6 +965,9 @@ def run(ctx):
         ctx.shards(shard_owner_default, None)
         ctx.shards(shard_observe_mutate, None)
         ctx.shards(shard_edited, (A7, 7))
+    for d, a, v, df, bdf, cap in copies:
+        if want("copies"):
+            ctx.shards(shard_copies, (d, a, v, df, bdf, time.time() + cap if cap else None))
     for d, a, v, df in singles:
         if want("single"):
             ctx.shards(shard_single, (d, a, v, df))
